@@ -138,6 +138,16 @@ class Scratch:
                     data.append({"path": p, "size": os.path.getsize(p)})
             pp = os.path.join(dd, "profile.yaml")
             profiles.append({"id": "generated/" + d, "path": pp, "size": os.path.getsize(pp), "data": data, "class": "generated"})
+        spec = os.path.join(VERIF, "corpus", "special")
+        for d in sorted(os.listdir(spec)):
+            dd = os.path.join(spec, d)
+            data = []
+            for f in sorted(os.listdir(dd)):
+                if f.endswith(".jsonld"):
+                    p = os.path.join(dd, f)
+                    data.append({"path": p, "size": os.path.getsize(p)})
+            pp = os.path.join(dd, "profile.yaml")
+            profiles.append({"id": "special/" + d, "path": pp, "size": os.path.getsize(pp), "data": data, "class": "special"})
         out = os.path.join(self.dir, name)
         json.dump({"root": self.src, "profiles": profiles}, open(out, "w"))
         self.corpus_path = out
